@@ -18,3 +18,17 @@ class CatalogEntry {
 };
 unsigned long sign_extend(unsigned long address) { if (address & 0x20000) { return 0xFC0000 | address; } else { return address; } }
 }
+
+// R-C02-5: the sorter tests for the current directory exactly
+#include <cctype>
+struct Ctx5 { char current_directory; };
+struct Entry5 { char d; char directory() const { return d; } };
+bool sorts_first_good(const Ctx5& ctx, const Entry5& l, const Entry5& r)
+{
+  auto mapdir = [&ctx](char dir) -> char {
+    const bool current = (dir == ctx.current_directory);
+    return current ? '\0' : static_cast<char>(tolower(static_cast<unsigned char>(dir)));
+  };
+  return mapdir(l.directory()) < mapdir(r.directory());
+}
+bool in_current(const Ctx5& ctx, const Entry5& e) { return e.directory() == ctx.current_directory; }
